@@ -26,8 +26,10 @@ META["text"] = (
     "(6) gather/scatter are mutually inverse on distinct in-range indices; "
     "(7) band-dense format: band2Dense(dense2Band M) keeps exactly the stored part of M and dense2Band(band2Dense B) reproduces the storage including unused slots; symmetrize flag; "
     "(8) mju_sym2dense is the full symmetric matrix of a lower-triangular CSR matrix and mju_mulSymVecSparse multiplies by it (these are mj_fullM / mj_mulM); "
-    "(9) mju_cholSolve: for every n, every storage L with non-zero diagonal (strict upper triangle ignored) and every b, (low L)(low L)' x = b. "
-    "NOT proved (models exist and are tied, oracle on outputs): mju_cholFactor (L L' = A), mju_cholUpdate, mju_combineSparseCount = length of the merge, mju_addToMatSparse/addToSymSparse, mju_dotSparse2. "
+    "(9) mju_cholSolve: for every n, every storage L with non-zero diagonal (strict upper triangle ignored) and every b, (low L)(low L)' x = b; "
+    "(10) mju_cholFactor (in-place, column by column): for every n and every A, if mindiag > 0 and no column is rank-deficient (returned rank = n) then the lower triangle holds L with positive diagonal and L L' = A on the lower triangle, "
+    "the strict upper triangle is untouched, and cholSolve(cholFactor A, b) solves (symmetric A) x = b (C23_chol_factor, C23_chol_factor_solve); nothing is proved about the rank-deficient branch. "
+    "NOT proved (models exist and are tied, oracle on outputs): mju_cholUpdate, mju_combineSparseCount = length of the merge, mju_addToMatSparse/addToSymSparse, mju_dotSparse2, the rank-deficient branch of mju_cholFactor. "
     "NOT modelled (oracle only, on implementation outputs of both builds): the dense blas kernels against their definitions, mju_sqrMatTDSparse(_row/Count) against dense M' diag M and the structural pattern, "
     "mju_superSparse and the rowsuper output of transposeSparse against the supernode definition, mju_cholFactorBand/cholSolveBand/bandMulMatVec, mju_factorLU/solveLU/LU6/solve3, mju_cholFactorSparse/cholSolveSparse/cholUpdateSparse, "
     "mju_factorLUSparse/solveLUSparse (residuals and reconstructions, 1e-9 / 1e-8), mju_eig3 (orthonormal to 1e-9, quaternion consistent, eigenvalues sorted, reconstruction only to ~1e-6 relative: the Jacobi loop stops at rotation angles below ~1.4e-6 by design; "
@@ -1071,7 +1073,7 @@ class BoxQP(Case):
 
 # ------------------------------------------------------------------------------------- generation
 def gen_cases(rng, tier):
-    T = 1 if tier == "quick" else 8
+    T = 1 if tier == "quick" else 6
     cs = []
     lens = list(range(0, 14)) + [15, 16, 17, 19, 20, 23, 31, 32, 33]
     for n in lens:
@@ -1093,7 +1095,7 @@ def gen_cases(rng, tier):
         M = rowsof(rvals(rng, nr * nc, rng.choice(["z", "z", "u", "i"])), nr, nc)
         tot = sum(1 for x in flat(M) if x != 0)
         cs.append(D2S(nr=nr, nc=nc, M=M, cap=rng.choice([tot, tot, tot + 3, tot - 1, 0, 1, nr * nc + 1])))
-    for _ in range(40 * T):
+    for _ in range((28 if T == 1 else 40 * T)):
         nr, nc = rng.randrange(0, 9), rng.randrange(1, 20)
         S = rand_csr(rng, nr, nc)
         cs.append(S2D(S=S))
@@ -1114,7 +1116,7 @@ def gen_cases(rng, tier):
         cs.append(MulMatVec(S=S, v=rvals(rng, nc), sup=1))
         cs.append(Transpose(S=S))
         cs.append(Transpose(S=CSR(rowsT(rows, nc), len(rows), rng, "compact")))
-    for _ in range(40 * T):
+    for _ in range((28 if T == 1 else 40 * T)):
         n = rng.randrange(1, 14)
         di = sorted(rng.sample(range(n), rng.randrange(0, n + 1)))
         si = list(di) if rng.random() < 0.25 else sorted(rng.sample(range(n), rng.randrange(0, n + 1)))
@@ -1127,7 +1129,7 @@ def gen_cases(rng, tier):
         Dr = [sorted(rng.sample(range(nc), rng.randrange(0, nc + 1))) if rng.random() < 0.7 else [c for c, _ in M.rows[r]] for r in range(nr)]
         D = CSR([[(c, rnz(rng)) for c in cols] for cols in Dr], nc, rng, "gaps", room=[nc] * nr)
         cs.append(AddToMat(D=D, M=M))
-    for _ in range(40 * T):
+    for _ in range((28 if T == 1 else 40 * T)):
         nr, nc = rng.randrange(1, 9), rng.randrange(1, 12)
         S = rand_csr(rng, nr, nc, layout=rng.choice(["compact", "gaps", "gaps"]), kind=rng.choice(["u", "z", "i"]))
         cs.append(Compress(S=S, minval=rng.choice([-1.0, -1.0, 0.0, 0.0, 0.5, 1.0, 1.5])))
